@@ -127,9 +127,10 @@ func checkC07(p *Prog, r *Report) {
 			r.Check(good, "Conn.Write: pair is the selected pair or the best validated pair", p.Pos(w.Pos()), "getSelectedPair() / getBestValidCandidatePair() in the loop", strings.Join(why, "; "))
 		} else {
 			_, noErr := facts, false
+			// the variable through which the lookup closure reports "no such pair"
+			lookupErrObj := p.localByDef(f, func(rhs ast.Expr) bool { return p.MentionsObj(rhs, "ice.ErrCandidatePairNotFound") })
 			noErr = facts.Has(func(ft Fact) bool {
-				id, ok := unparen(ft.X).(*ast.Ident)
-				return ft.Op == "==" && ft.Val && p.isNilExpr(ft.Y) && ok && id.Name == "lookupErr"
+				return ft.Op == "==" && ft.Val && p.isNilExpr(ft.Y) && p.isObj(ft.X, lookupErrObj)
 			})
 			r.Check(noErr, "WriteToPair: lookup succeeded", p.Pos(w.Pos()), "dominated by lookupErr == nil", "the write is reachable although the pair lookup reported an error")
 			// the lookup closure
@@ -148,10 +149,11 @@ func checkC07(p *Prog, r *Report) {
 					if !ok {
 						return nil
 					}
-					switch id.Name {
-					case "lookupErr":
+					// roles by type: the error result and the pair result of the lookup
+					switch {
+					case isErrorType(p.TypeOf(id)):
 						return []string{"err=" + p.constNameOrVar(as.Rhs[0])}
-					case "pair":
+					case typeStr(p.TypeOf(id)) == "*ice.CandidatePair":
 						if ix, ok := unparen(as.Rhs[0]).(*ast.IndexExpr); ok && p.IsField(ix.X, "Agent.pairsByID") {
 							if kid, ok := unparen(ix.Index).(*ast.Ident); ok && p.ObjOf(kid) == p.paramObj(f, 0) {
 								return []string{"pair=pairsByID[id]"}
